@@ -138,6 +138,7 @@ func contractsCmd(args []string) {
 	fs := flag.NewFlagSet("contracts", flag.ExitOnError)
 	match := fs.String("match", ".", "regexp on function names")
 	dump := fs.String("dump", "", "dump failed scripts")
+	ao := fs.Bool("ao", false, "development: verify append-shaped functions that match under the append-only contract")
 	fs.Parse(args)
 	p, err := vc.Load(repoDir, vc.ModPath, vc.ModPath+"/pkg/...", vc.ModPath+"/pp")
 	if err != nil {
@@ -155,7 +156,24 @@ func contractsCmd(args []string) {
 		fmt.Println("pure methods:", cs.PureMethods, "stable:", cs.StableStructs)
 	}
 	re := regexp.MustCompile(*match)
-	for _, name := range cs.Order {
+	order := append([]string{}, cs.Order...)
+	if *ao {
+		// development: synthetic append-only contracts for the functions of the shape that match
+		var extra []string
+		for n, fn := range p.Funcs {
+			if re.MatchString(n) && vc.AppendShape(fn) >= 0 && len(fn.Blocks) > 0 && fn.Parent() == nil {
+				if ct := cs.ByFunc[n]; ct != nil {
+					ct.Options["append-only"] = true
+				} else {
+					cs.ByFunc[n] = &vc.Contract{Func: n, Loops: map[string][]*vc.Clause{}, Options: map[string]bool{"append-only": true, "no-lambda": true}}
+					extra = append(extra, n)
+				}
+			}
+		}
+		sort.Strings(extra)
+		order = append(order, extra...)
+	}
+	for _, name := range order {
 		if !re.MatchString(name) {
 			continue
 		}
